@@ -22,6 +22,8 @@ def check(ctx):
         ctx.extra_cov['lookup_tables'] = {k: v[1] for k, v in lu.sizes.items() if isinstance(v, tuple)}
     except Lost as e:
         ctx.undecided.append('lookups reason=lost anchor: %s' % e)
+    from contracts import hashfn
+    ctx.verus_unit(hashfn.UNIT, finder=dict(module='lib', check='hashfunc', alphabet=b'aB-', maxlen=7))
     ctx.native_ground('lib', 'tables_wf', 'complete',
                       'wf_tables() of the Verus unit `lookups` evaluated on the real statics: every stored index/range/version list lies inside the table it points into; group nesting is well-founded (rank = nesting height)')
     # (b) closed instances on the real code  [native, exhaustive]
